@@ -145,12 +145,18 @@ func eqAnyOrder(got []any, want []any) bool {
 // optional WHERE and HAVING; groups in order of first appearance.
 func H_C03_group1() {
 	n := verif.Choose("rows", maxRows(3, 4)+1)
-	form := verif.Choose("form", 3)
-	verif.Opt("maporder", 1)
+	form := verif.Choose("form", 5)
+	verif.Opt("maporder", 3)
 	doc, rows := numTable(n, "k", "v")
 	c := verif.F64("c")
 	var sql string
 	switch form {
+	case 3:
+		// the member rows of each group, in source order
+		sql = "SELECT k, * FROM t GROUP BY k"
+	case 4:
+		// HAVING on an aggregate that is not in the select list
+		sql = verif.SQL("SELECT k, COUNT(*) AS c FROM t GROUP BY k HAVING MAX(v) > ?", c)
 	case 0:
 		sql = "SELECT k, COUNT(*) AS c, SUM(v) AS s, MIN(v) AS mn, MAX(v) AS mx, AVG(v) AS av FROM t GROUP BY k"
 	case 1:
@@ -175,6 +181,21 @@ func H_C03_group1() {
 		if form == 2 && !(len(g.members) > 1) {
 			continue
 		}
+		if form == 4 && !(f64of(refMax(g.members, "v")) > c) {
+			continue
+		}
+		if form == 3 {
+			var members []any
+			for _, m := range g.members {
+				members = append(members, Map{"k": m["k"], "v": m["v"]})
+			}
+			want = append(want, Map{"k": g.key[0], "*": members})
+			continue
+		}
+		if form == 4 {
+			want = append(want, Map{"k": g.key[0], "c": len(g.members)})
+			continue
+		}
 		row := Map{"k": g.key[0], "c": len(g.members), "s": refSum(g.members, "v")}
 		if form == 0 {
 			row["mn"], row["mx"], row["av"] = refMin(g.members, "v"), refMax(g.members, "v"), refAvg(g.members, "v")
@@ -190,7 +211,7 @@ func H_C03_group1() {
 // H_C03_group2: two grouping columns and access to the member rows.
 func H_C03_group2() {
 	n := verif.Choose("rows", maxRows(2, 3)+1)
-	verif.Opt("maporder", 1)
+	verif.Opt("maporder", 3)
 	doc, rows := numTable(n, "k", "j", "v")
 	got, ok := runQuery(doc, "SELECT k, j, COUNT(*) AS c, SUM(v) AS s FROM t GROUP BY k, j")
 	if !ok {
@@ -235,7 +256,7 @@ func H_C03_whole() {
 func H_C03_same_fn() {
 	n := verif.Choose("rows", maxRows(2, 3)+1)
 	grouped := verif.Choose("grouped", 2)
-	verif.Opt("maporder", 1)
+	verif.Opt("maporder", 3)
 	doc, rows := numTable(n, "k", "a", "b")
 	if grouped == 1 {
 		got, ok := runQuery(doc, "SELECT k, SUM(a) AS sa, SUM(b) AS sb, MAX(a) AS ma, MAX(b) AS mb FROM t GROUP BY k")
@@ -262,7 +283,7 @@ func H_C03_same_fn() {
 // H_C03_nulls: SUM/MIN/MAX ignore NULL members; NULL group keys form a group.
 func H_C03_nulls() {
 	n := verif.Choose("rows", maxRows(2, 3)+1)
-	verif.Opt("maporder", 1)
+	verif.Opt("maporder", 3)
 	rows := make([]Map, n)
 	arr := make([]any, n)
 	for i := range rows {
@@ -296,7 +317,7 @@ func H_C03_nulls() {
 func H_C03_having() {
 	n := verif.Choose("rows", maxRows(3, 4)+1)
 	form := verif.Choose("form", 3)
-	verif.Opt("maporder", 1)
+	verif.Opt("maporder", 3)
 	doc, rows := numTable(n, "k", "v")
 	c, d := verif.F64("c"), verif.F64("d")
 	var sql string
@@ -387,7 +408,7 @@ func H_C03_qualified() {
 func H_C03_nullkeys() {
 	n := verif.Choose("rows", maxRows(2, 3)+1)
 	two := verif.Choose("columns", 2)
-	verif.Opt("maporder", 1)
+	verif.Opt("maporder", 3)
 	rows := make([]Map, n)
 	arr := make([]any, n)
 	cell := func(r Map, col string) {
